@@ -23,7 +23,7 @@ import (
 )
 
 var st = stat.New("C12",
-	"Case = 1..3 scenarios run concurrently, scenario = {worker pool 0 or 1..4, queue capacity 1..64 or large, 1..4 raw client connections, per connection 0..10 pipelined requests whose handlers sleep 0..3000 ms, Shutdown(ctx) called 0..250 ms after the requests were written, ctx timeout 4..8 s}. The obligated set is measured, not assumed: per connection the first (replies already received + the server's read-but-unanswered counter, read just before Shutdown through an overlay accessor) requests in FIFO order. Oracle: every obligated request is answered (matching id) before the connection is closed; every connection receives the reconnect notification (id 0, _reconnect_) and is then closed by the server; Shutdown returns within ctx timeout + 1 s; when it returned before its context expired every obligated request must have been answered and every connection notified and closed, and it must not have waited longer than last handler end + 2 s idle rule + 1.5 s (when it ran into its context, unanswered requests are legitimate). Non-trivial = pool > 0 with more accepted requests than workers at shutdown, or >= 2 handlers mid-flight at shutdown. Distinct = distinct case JSON.",
+	"Case = 1..3 scenarios run concurrently, scenario = {worker pool 0 or 1..4, queue capacity 1..64 or large, 1..4 raw client connections, per connection 0..10 pipelined requests whose handlers sleep 0..3000 ms, Shutdown(ctx) called 0..250 ms after the requests were written, ctx timeout 4..8 s, handle timeout 0 / 1 s / 2.5 s}. The obligated set is measured, not assumed: per connection the first (replies already received + the server's read-but-unanswered counter, read just before Shutdown through an overlay accessor) requests in FIFO order. Oracle: every obligated request is answered (matching id) before the connection is closed; every connection receives the reconnect notification (id 0, _reconnect_) and is then closed by the server; Shutdown returns within ctx timeout + 1 s; when it returned before its context expired every obligated request must have been answered and every connection notified and closed, and it must not have waited longer than last handler end + 2 s idle rule + 1.5 s (when it ran into its context, unanswered requests are legitimate). Non-trivial = pool > 0 with more accepted requests than workers at shutdown, or >= 2 handlers mid-flight at shutdown. Distinct = distinct case JSON.",
 	"requests still in the socket buffer because the accept/queue path was blocked are not obligated (the property speaks of requests already read)",
 	"interleavings of accept loop, receive loops, handlers and the shutdown poller are sampled through generated handler durations and shutdown moments")
 
@@ -44,6 +44,9 @@ type Scenario struct {
 	Conns       []Conn `json:"conns"`
 	ShutdownMs  int    `json:"shutdown_after_ms"`
 	CtxTimeoutS int    `json:"ctx_timeout_s"`
+	// HandleTimeoutMs > 0: the adapter's handle timeout (a handler running longer is answered
+	// with a timeout reply, which is a reply)
+	HandleTimeoutMs int `json:"handle_timeout_ms,omitempty"`
 }
 
 type Case struct {
@@ -58,6 +61,7 @@ func draw(rt *rapid.T) Case {
 		s.QueueCap = rapid.SampledFrom([]int{1, 2, 8, 64, 10000}).Draw(rt, "queuecap")
 		s.ShutdownMs = rapid.SampledFrom([]int{0, 5, 20, 60, 120, 250}).Draw(rt, "shutdownAfter")
 		s.CtxTimeoutS = rapid.IntRange(4, 8).Draw(rt, "ctxTimeout")
+		s.HandleTimeoutMs = rapid.SampledFrom([]int{0, 0, 0, 1000, 2500}).Draw(rt, "handleTimeout")
 		nc := rapid.IntRange(1, 4).Draw(rt, "nconns")
 		for j := 0; j < nc; j++ {
 			cn := Conn{BigReply: -1}
@@ -121,7 +125,7 @@ func runScenario(si int, s Scenario) scenResult {
 	d := &sleeper{}
 	p := tars.VerifBindDefaultApp(tars.NewTarsProtocol(d, nil, false))
 	conf := &transport.TarsServerConf{Proto: "tcp", Address: "127.0.0.1:0", MaxInvoke: s.MaxInvoke, QueueCap: s.QueueCap,
-		AcceptTimeout: 500 * time.Millisecond, IdleTimeout: 600 * time.Second, TCPNoDelay: true,
+		AcceptTimeout: 500 * time.Millisecond, IdleTimeout: 600 * time.Second, TCPNoDelay: true, HandleTimeout: time.Duration(s.HandleTimeoutMs) * time.Millisecond,
 		TCPReadBuffer: 128 * 1024 * 1024, TCPWriteBuffer: 128 * 1024 * 1024} // the framework defaults (tars/setting.go)
 	srv := transport.NewTarsServer(p, conf)
 	if err := srv.Listen(); err != nil {
@@ -358,6 +362,12 @@ var pinnedCases = map[string]Case{
 		{MaxInvoke: 0, QueueCap: 10000, ShutdownMs: 120, CtxTimeoutS: 6, Conns: []Conn{{SleepMs: []int{0}, BigReply: 0, SlowReaderMs: 2500}}},
 		{MaxInvoke: 2, QueueCap: 64, ShutdownMs: 120, CtxTimeoutS: 6, Conns: []Conn{{SleepMs: []int{0}, BigReply: 0, SlowReaderMs: 2500}, {SleepMs: []int{10, 400}, BigReply: -1}}},
 		{MaxInvoke: 1, QueueCap: 8, ShutdownMs: 60, CtxTimeoutS: 6, Conns: []Conn{{SleepMs: []int{0, 0, 0}, BigReply: 2, SlowReaderMs: 2000}}},
+	}},
+	// a queue that takes longer to drain than the handle timeout: every queued request has
+	// been read and must still be answered
+	"deep-queue-with-handle-timeout": {Scenarios: []Scenario{
+		{MaxInvoke: 1, QueueCap: 64, ShutdownMs: 100, CtxTimeoutS: 8, HandleTimeoutMs: 1000, Conns: []Conn{{SleepMs: []int{600, 600, 600, 600, 600, 600}, BigReply: -1}}},
+		{MaxInvoke: 2, QueueCap: 64, ShutdownMs: 50, CtxTimeoutS: 8, HandleTimeoutMs: 1000, Conns: []Conn{{SleepMs: []int{700, 700, 700, 700}, BigReply: -1}, {SleepMs: []int{700, 700, 700, 700}, BigReply: -1}}},
 	}},
 }
 
